@@ -54,6 +54,11 @@ impl<'l, Data> SourceList<'l, Data> {
         }
     }
 
+    #[cfg(feature = "verif")]
+    pub(crate) fn verif_slots(&self) -> impl Iterator<Item = &SourceEntry<'l, Data>> {
+        self.sources.iter()
+    }
+
     pub(crate) fn get_mut(
         &mut self,
         token: TokenInner,
